@@ -33,7 +33,7 @@ def ensure_qmir():
             raise AnalysisError('qmir does not build:\n' + r.stderr[-2000:])
 
 
-def extract(repo=REPO, targets=('--lib', '--bins'), crates='qcow2_rs,rqcow2', tag='repo',
+def extract(repo=REPO, targets=('--lib', '--bins'), crates='qcow2_rs,rqcow2', tag=os.environ.get('QV_TAG', 'repo'),
             target_dir=None, fingerprint_glob='qcow2-rs-*'):
     """Returns {file name: Facts}."""
     ensure_qmir()
